@@ -267,7 +267,8 @@ CHECKS["C16"] = {
 
 CHECKS["C17"] = {
     "harnesses": [H("c17.VH_throttle", {"CFG": i, "READS": 2, "CONNS": 2, "SIZES": 3, "L": 320}, {"CFG": i, "READS": 2, "CONNS": 2, "SIZES": 6, "L": 400}, variant=f"cfg{i}", weight=3,
-                    covers=["throttled", "bytes read"], validate=False, native_replay=False, env_only=True) for i in range(4)],
+                    covers=["throttled", "bytes read"], validate=False, native_replay=False, env_only=True) for i in range(4)] + [
+        H("c17.VH_cancel", {}, {}, covers=["cancelled during the latency", "cancelled afterwards"], validate=False, native_replay=False, env_only=True)],
     "level_text": "bounded model checking of the real throttle Handler.Provision/Handle and throttledConn.Read on the virtual clock against an integer token-bucket contract for x/time/rate.Limiter (NewLimiter, Burst, WaitN): per connection and summed over two connections of one handler, bytes read by any read instant <= burst + rate x elapsed; the first client read is not before the configured latency; WaitN is never asked for more than the burst; every read continues the client's stream (stream symbolic, segmentation symbolic)",
     "level_note": "relative to the token-bucket contract - x/time/rate's own float64 arithmetic is not encoded (floats are concrete-only in the engine); four concrete rate/burst/latency configurations; reader buffer sizes from {1,32,64,100,101,300}; 2-3 reads per connection, two connections one after the other; context cancellation during the latency wait is not modelled; no native replay (limiter replaced, virtual clock)",
     "assumptions": ["rate.Limiter = integer token bucket: WaitN(n) fails if n > burst, otherwise returns at the earliest instant n tokens are available and removes them; tokens accrue at rate/s up to burst"],
